@@ -261,6 +261,8 @@ def main():
                        'paths in the known gap region (KNOWN-FINDING C07/gap-next-to-box-face) are reported once and not decided for anything else']
     rep.bounds = {'levels': '1-3', 'boxes_per_level': '1-3', 'box_extent': '1-4', 'position': 'symbolic real in [lo_n - 1, hi_n + 1]'}
     common.run_cases(rep, run_case, cases())
+    from harness import k_lemmas
+    k_lemmas.run_into(rep, ['k_expand'])
     return rep.finish()
 
 
